@@ -4,6 +4,8 @@ pub mod cache;
 pub mod comm;
 pub mod disco;
 pub mod flow;
+pub mod hostile;
+pub mod ident;
 
 use proptest::strategy::Strategy;
 use serde::{Serialize, de::DeserializeOwned};
@@ -16,6 +18,8 @@ pub const SHARDS: u32 = 8;
 pub fn dispatch(ctx: &Ctx) -> Option<()> {
     match ctx.id.as_str() {
         "C01" | "C02" | "C05" => comm::main(ctx),
+        "C06" => hostile::main(ctx),
+        "C11" => ident::main(ctx),
         "C15" | "C16" | "C17" => disco::main(ctx),
         "C03" | "C04" | "C26" | "C27" | "C29" => flow::main(ctx),
         "C18" | "C19" | "C20" | "C21" | "C22" | "C23" | "C24" | "C25" => cache::main(ctx),
